@@ -10,6 +10,7 @@ structure St where
   w : World := World.empty
   s : MuxSpec.SState := {}
   next : Nat := 0
+  listenTried : Bool := false
 
 def num (s : Str) : Nat := (Str.show s).toNat!
 
@@ -62,11 +63,40 @@ def run.handle (st : St) (m : Nat) (p gk : Str) (rest : List Str) : St × String
       | .error _ => st.s
     ({ st with w := w, s := s, next := id + 1 }, regOut r, specHandle st.s m p group parallel, "handle-" ++ regOut r)
 
+/-- bytewise lexicographic order (Go's `sort.Strings`) -/
+def strLe : Str → Str → Bool
+  | [], _ => true
+  | _ :: _, [] => false
+  | a :: as, b :: bs => if a < b then true else if a > b then false else strLe as bs
+
 def run (st : St) (args : List Str) : St × String × String × String :=
   let bad := (st, "bad-op", "-", "bad")
   match args with
   | [c] =>
-    if c = str "reset" then ({}, "ok", "-", "triv-reset") else bad
+    if c = str "reset" then ({}, "ok", "-", "triv-reset")
+    else if c = str "onreg" then
+      -- mux 0 is mounted at "top" on a service "svc": every handler below it hears its full pattern —
+      -- service name, mount path, the paths and mount points on the way down, and its own pattern with the
+      -- tag names it was registered with (specification side only: registrations and the mount relation)
+      (match st.s.mux? 0 with
+      | none => (st, "nomux", "-", "nomux")
+      | some m0 =>
+        if m0.parent.isSome then (st, "panic", "panic", "onreg-mounted")
+        else
+          let pre := MuxSpec.mergeP (str "svc") (MuxSpec.mergeP (str "top") m0.path)
+          let pats := (st.s.candidates 0 .handler).map fun c => MuxSpec.mergeP pre (joinDots c.rel)
+          let rec ins (x : Str) : List Str → List Str
+            | [] => [x]
+            | y :: r => if strLe x y then x :: y :: r else y :: ins x r
+          let sortL (l : List Str) : List Str := l.foldl (fun acc x => ins x acc) []
+          let norm (p : Str) : Str := joinDots ((splitDots p).map fun t => match t with
+            | c :: _ :: _ => if c = Ch.dollar then [Ch.star] else t
+            | _ => t)
+          let sorted := sortL pats
+          let listened := st.s.regs.any (·.kind = .listener) || st.listenTried
+          let o := "norm=" ++ encList (sortL (pats.map norm)) ++ " exact=" ++ (if listened then "-" else encList sorted)
+          (st, o, o, if sorted.isEmpty then "onreg-none" else "onreg"))
+    else bad
   | [c, m, a] =>
     let m := num m
     if c = str "new" then
@@ -78,8 +108,9 @@ def run (st : St) (args : List Str) : St × String × String × String :=
     else if c = str "listen" then
       let id := st.next
       match st.w.withRoot m (fun root => addListenerAt root a id) with
-      | none => ({ st with next := id + 1 }, "panic", "-", "nomux")
+      | none => ({ st with next := id + 1, listenTried := true }, "panic", "-", "nomux")
       | some (w, r) =>
+        let st := { st with listenTried := true }
         let s := match r with
           | .ok _ => { st.s with regs := st.s.regs ++ [⟨.listener, m, MuxSpec.toksOf a, id, [], false⟩] }
           | .error _ => st.s
